@@ -82,6 +82,28 @@ if os.path.isdir(prof_dir):
                 continue
             kind, rel = line.split()[:2]
             only = line.split()[2:]  # optional file filter
+            if kind == "subst":
+                # subst <repo file> <subst spec under /verif/ovl/subst/>: exact-text
+                # substitutions (each must match exactly once, else the build is refused)
+                target = os.path.join(REPO, rel)
+                spec = open(os.path.join(VERIF, "ovl", "subst", line.split()[2])).read()
+                cur = rep.get(target, target)
+                text = open(cur).read()
+                blocks = [b for b in spec.split("\n@@\n") if b.strip()]
+                for b in blocks:
+                    if "\n==\n" not in b:
+                        continue
+                    old, new = b.split("\n==\n", 1)
+                    old = old.lstrip("@").lstrip("\n") if old.startswith("@@") else old
+                    if text.count(old) != 1:
+                        print("overlay: subst pattern matches %d times in %s:\n%s" % (text.count(old), rel, old), file=sys.stderr)
+                        sys.exit(1)
+                    text = text.replace(old, new)
+                dst = os.path.join(GEN, "sb__" + pf[:-4] + "__" + rel.replace("/", "__"))
+                if not os.path.exists(dst) or open(dst).read() != text:
+                    open(dst, "w").write(text)
+                rep[target] = dst
+                continue
             if kind != "maprange":
                 print("overlay: unknown profile directive", kind, file=sys.stderr)
                 sys.exit(1)
